@@ -18,7 +18,9 @@ BigMenu == {<<>>} \cup UNION {{ [i \in 1..k |-> IF i = k THEN 1 ELSE 0],        
                                [i \in 1..k |-> IF i = k THEN 128 ELSE i] } : k \in 1..9}
 BcdParts == {<<>>, <<"0">>, <<"1">>, <<"9">>, <<"1", "2">>, <<"9", "9", "9">>, <<"9", "9", "9", "9">>,
              <<"1", "2", "3", "4", "5">>, <<"a">>, <<"1", "a">>, <<"-", "1">>, <<"g">>, <<"+", "1">>, <<"1", "_", "0">>}
-HexMenu == {<<"0", "0", "0", "1">>, <<"0">>, <<"f", "F">>, <<"0", "1", "a", "b">>, <<"1", "2", "3">>, <<"g", "0">>, <<"0", "1", "0", "2", "0", "3">>}
+HexMenu == {<<"0", "0", "0", "1">>, <<"0">>, <<"f", "F">>, <<"0", "1", "a", "b">>, <<"1", "2", "3">>, <<"g", "0">>, <<"0", "1", "0", "2", "0", "3">>,
+            \* hex text whose first characters look like the prefix of another radix: "0b.." is hexadecimal 0B.., "0o.." is no hex text at all
+            <<"0", "b">>, <<"0", "b", "1", "0">>, <<"0", "B", "1", "f">>, <<"0", "b", "0", "1", "0", "1">>, <<"0", "o", "1", "7">>, <<"0", "O">>, <<"0", "x">>}
 Init ==
   \/ fn = "value_to_int_str"  /\ a \in [s : Strings]
   \/ fn = "value_to_int_bytes" /\ a \in [b : UNION {{RevSeq(PadLE(n, k)) : k \in {Len(n), Len(n) + 1}} : n \in BigMenu}]
